@@ -231,7 +231,7 @@ def table_task(task):
                 # data points are clusters named by their integer id; a cluster table maps 1-3 mutations to each
                 rows = []
                 # cluster ids are integers (PyClone-VI) or any text; data points are created in sorted id order
-                textual = c % 9 == 5
+                textual = False  # C12 quantifies over integer cluster ids (as PyClone-VI emits)
                 ident = (lambda k: "cl%02d" % k) if textual else (lambda k: k)
                 for dp in data:
                     dp.name = str(ident(2 * dp.idx + 3))
